@@ -24,6 +24,7 @@ LENSES = {
     "C02": "c02",
     "C03": "c03",
     "C05": "c05",
+    "C06": "c06",
     "C07": "c07",
 }
 
